@@ -290,3 +290,153 @@ Proof.
     eapply same_static_trans; eassumption.
   - intros H; inversion H; subst. eapply same_static_trans; eassumption.
 Qed.
+
+(* ------------------------------------------------ D. the loop of Subscriptions::tick *)
+Definition tx_ids (tx : list (Z * req * msg)) : list Z := map (fun e => fst (fst e)) tx.
+
+Lemma pair_up_spec id : forall reqs ns tx r m,
+  pair_up id reqs ns = (tx, r, m) ->
+  (forall i, In i (tx_ids tx) -> i = id) /\ (r <> [] -> m = []) /\ (reqs = [] -> tx = [] /\ r = []).
+Proof.
+  induction reqs as [|q reqs IH]; intros ns tx r m H.
+  - cbn [pair_up] in H. inversion H; subst. repeat split; try reflexivity; [intros i []|congruence].
+  - destruct ns as [|n ns]; cbn [pair_up] in H.
+    + inversion H; subst. repeat split; try discriminate; intros i [].
+    + destruct (pair_up id reqs ns) as [[tx1 r1] m1] eqn:E. inversion H; subst.
+      destruct (IH _ _ _ _ E) as (H1 & H2 & _). repeat split; try discriminate; [|exact H2].
+      intros i [Hi|Hi]; [cbn in Hi; congruence | apply H1; exact Hi].
+Qed.
+
+
+Section Scheduling.
+Variable stick : sub -> list Z -> Z -> bool -> bool -> option sub.
+Hypothesis stick_static : forall s vars now timer rq s',
+  stick s vars now timer rq = Some s' -> s_id s' = s_id s /\ s_prio s' = s_prio s.
+Variables (vars : list Z) (now : Z) (timer : bool).
+
+Notation tick_ids' := (fun idl subs reqs => tick_ids_g stick idl subs reqs vars now timer).
+
+(* one step of the loop, opened up *)
+Lemma tick_ids_cons id r subs reqs subs' reqs' tx :
+  tick_ids_g stick (id :: r) subs reqs vars now timer = Some (subs', reqs', tx) ->
+  exists s s1 tx1 reqs1 ns tx2,
+    find_sub id subs = Some s /\ stick s vars now timer (negb (is_nil reqs)) = Some s1 /\
+    pair_up id reqs (s_notifs s1) = (tx1, reqs1, ns) /\
+    tick_ids_g stick r (if (s_state (set_notifs s1 ns) =? 0) && is_nil ns
+                        then remove_sub id subs else replace_sub (set_notifs s1 ns) subs)
+               reqs1 vars now timer = Some (subs', reqs', tx2) /\
+    tx = tx1 ++ tx2.
+Proof.
+  cbn [tick_ids_g]. unfold bind.
+  destruct (find_sub id subs) as [s|] eqn:Ef; [|discriminate].
+  destruct (stick s vars now timer _) as [s1|] eqn:Es; [|discriminate].
+  destruct (pair_up id reqs (s_notifs s1)) as [[tx1 reqs1] ns] eqn:Ep.
+  destruct (tick_ids_g stick r _ reqs1 vars now timer) as [[[subs2 reqs2] tx2]|] eqn:Er; [|discriminate].
+  intros H; inversion H; subst.
+  exists s, s1, tx1, reqs1, ns, tx2. repeat split; assumption.
+Qed.
+
+Lemma tick_ids_no_reqs : forall idl subs subs' reqs' tx,
+  tick_ids_g stick idl subs [] vars now timer = Some (subs', reqs', tx) -> tx = [] /\ reqs' = [].
+Proof.
+  induction idl as [|id r IH]; intros subs subs' reqs' tx H.
+  - cbn in H. inversion H. split; reflexivity.
+  - apply tick_ids_cons in H as (s & s1 & tx1 & reqs1 & ns & tx2 & _ & _ & Hp & Hr & ->).
+    destruct (pair_up_spec _ _ _ _ _ _ Hp) as (_ & _ & H3). destruct (H3 eq_refl) as [-> ->].
+    apply IH in Hr as [-> ->]. split; reflexivity.
+Qed.
+
+(* the subscription list after one loop step *)
+Definition after_step (id : Z) (s1 : sub) (ns : list msg) (subs : list sub) : list sub :=
+  if (s_state (set_notifs s1 ns) =? 0) && is_nil ns
+  then remove_sub id subs else replace_sub (set_notifs s1 ns) subs.
+
+Lemma after_step_other id s1 ns subs j :
+  s_id s1 = id -> j <> id -> find_sub j (after_step id s1 ns subs) = find_sub j subs.
+Proof.
+  intros Hid Hne. unfold after_step. destruct (_ && _).
+  - apply find_remove_other. exact Hne.
+  - apply find_replace_other. cbn. congruence.
+Qed.
+
+Lemma after_step_ids id s1 ns subs x :
+  s_id s1 = id -> In x (ids (after_step id s1 ns subs)) -> In x (ids subs).
+Proof.
+  intros Hid. unfold after_step. destruct (_ && _).
+  - apply ids_remove_incl.
+  - rewrite ids_replace. auto.
+Qed.
+
+Lemma after_step_nodup id s1 ns subs :
+  NoDup (ids subs) -> NoDup (ids (after_step id s1 ns subs)).
+Proof.
+  unfold after_step. destruct (_ && _); [apply nodup_remove|]. rewrite ids_replace. auto.
+Qed.
+
+Lemma after_step_in id s1 ns subs s' :
+  In s' (after_step id s1 ns subs) -> s' = set_notifs s1 ns \/ In s' subs.
+Proof.
+  unfold after_step. destruct (_ && _).
+  - intros H. right. eapply in_remove_sub. exact H.
+  - apply in_replace_sub.
+Qed.
+
+Lemma tick_ids_frame : forall idl subs reqs subs' reqs' tx j,
+  tick_ids_g stick idl subs reqs vars now timer = Some (subs', reqs', tx) ->
+  ~ In j idl -> find_sub j subs' = find_sub j subs.
+Proof.
+  induction idl as [|id r IH]; intros subs reqs subs' reqs' tx j H Hj.
+  - cbn in H. inversion H. reflexivity.
+  - apply tick_ids_cons in H as (s & s1 & tx1 & reqs1 & ns & tx2 & Hf & Hs & Hp & Hr & ->).
+    apply stick_static in Hs as [Hid _]. apply find_sub_some in Hf as [_ Hsid].
+    rewrite (IH _ _ _ _ _ j Hr) by (intros Hin; apply Hj; right; exact Hin).
+    fold (after_step id s1 ns subs). apply after_step_other; [congruence|].
+    intros E. apply Hj. left. symmetry. exact E.
+Qed.
+
+Lemma tick_ids_subs : forall idl subs reqs subs' reqs' tx,
+  tick_ids_g stick idl subs reqs vars now timer = Some (subs', reqs', tx) ->
+  (NoDup (ids subs) -> NoDup (ids subs')) /\
+  (forall x, In x (ids subs') -> In x (ids subs)) /\
+  (forall s', In s' subs' -> exists s, In s subs /\ s_id s' = s_id s /\ s_prio s' = s_prio s).
+Proof.
+  induction idl as [|id r IH]; intros subs reqs subs' reqs' tx H.
+  - cbn in H. inversion H; subst. repeat split; auto. intros s' Hs'. exists s'. auto.
+  - apply tick_ids_cons in H as (s & s1 & tx1 & reqs1 & ns & tx2 & Hf & Hs & Hp & Hr & ->).
+    apply stick_static in Hs as [Hid Hpr]. apply find_sub_some in Hf as [Hin Hsid].
+    fold (after_step id s1 ns subs) in Hr.
+    destruct (IH _ _ _ _ _ Hr) as (I1 & I2 & I3). repeat split.
+    + intros Hnd. apply I1. apply after_step_nodup. exact Hnd.
+    + intros x Hx. eapply after_step_ids; [|apply I2; exact Hx]. congruence.
+    + intros s' Hs'. destruct (I3 s' Hs') as (s0 & Hs0 & E1 & E2).
+      apply after_step_in in Hs0 as [->|Hs0].
+      * exists s. cbn in E1, E2. repeat split; [exact Hin | congruence | congruence].
+      * exists s0. auto.
+Qed.
+
+End Scheduling.
+
+(* ------------------------------------------------ E. the priority order is a permutation *)
+Lemma ins_prio_perm x l : Permutation (ins_prio x l) (x :: l).
+Proof.
+  induction l as [|y r IH]; cbn [ins_prio]; [reflexivity|].
+  destruct (snd x <? snd y); [|reflexivity].
+  rewrite IH. apply perm_swap.
+Qed.
+
+Definition sorted_pairs (subs : list sub) : list (Z * Z) :=
+  fold_right ins_prio [] (map (fun s => (s_id s, s_prio s)) subs).
+
+Lemma sorted_pairs_perm subs :
+  Permutation (sorted_pairs subs) (map (fun s => (s_id s, s_prio s)) subs).
+Proof.
+  unfold sorted_pairs. induction subs as [|s r IH]; cbn [map fold_right]; [reflexivity|].
+  rewrite ins_prio_perm. constructor. exact IH.
+Qed.
+
+Lemma prio_order_perm subs : Permutation (prio_order subs) (ids subs).
+Proof.
+  unfold prio_order, ids. fold (sorted_pairs subs).
+  rewrite (sorted_pairs_perm subs). rewrite map_map. cbn [fst]. reflexivity.
+Qed.
+
